@@ -24,7 +24,7 @@ KINDS = {
     "pop": ("KPop", "PopulationChangeTolerance"),
     "poprel": ("KPopRel", "PopulationChangeRelativeTolerance"),
 }
-FLAGS = ["repaired", "legacy_signed", "legacy_zero", "legacy_sentinel"]
+FLAGS = ["repaired", "legacy_signed", "legacy_zero", "legacy_sentinel", "legacy_run_boundary"]
 
 
 # ------------------------------------------------------------------ the documented decision, on Fractions
@@ -171,11 +171,11 @@ def spsa_run_spec(thr, v, maxfev, run):
 
 def spsa_segments_spec(thr, v, maxfev, seq):
     """the implicit-reset rule on an arbitrary callback sequence: a new run starts after the change criterion fired or
-    when the counter decreases"""
+    when the counter does not increase"""
     runs, cur, last_n, closed, near = [], [], 0, False, False
     outs = []
     for n, f, acc in seq:
-        if closed or n < last_n:
+        if closed or n <= last_n:
             cur = []
         cur = cur + [(n, f, acc)]
         o, nr = spsa_run_spec(thr, v, maxfev, cur)
@@ -257,6 +257,19 @@ def gen_value(rng, prev=None, style=0):
 
 def gen_eval(rng, kind, prev, style):
     if kind in ("pop", "poprel"):
+        if style == 3:  # quiet history: small nudges of the previous population, now and then a median of exactly zero
+            r = rng.random()
+            if prev is None or r < 0.15:
+                a = rng.choice([0.125, 0.25, 0.5, 1.0])
+                vals = rng.choice([[-a, 0.0, a], [0.0], [-a, 0.0, 0.0, a, None], [-a, a], [1.0, 1.125, 0.875], [-2.0, -2.0, None, -2.25], [0.0, 0.0, 3.0]])
+                vals = list(vals)
+            else:
+                vals = list(prev["values"])
+                if r < 0.6:
+                    idx = [i for i, x in enumerate(vals) if x is not None]
+                    i = rng.choice(idx)
+                    vals[i] = vals[i] + rng.choice([0.125, -0.125, 0.0, 0.0625])
+            return {"best": min(x for x in vals if x is not None), "values": vals}
         if prev is not None and rng.random() < 0.2:
             return json.loads(json.dumps(prev))  # unchanged population
         size = rng.randint(1, 6)
@@ -283,6 +296,9 @@ def gen_crit_case(rng, kind):
         thr = rng.choice(THR_ANY)
     v = rng.choice([0, 0, 1, 1, 2, 3]) if rng.random() < 0.97 else -1
     style = rng.choice([0, 0, 1, 2])
+    if kind in ("pop", "poprel") and rng.random() < 0.4:
+        style, thr = 3, rng.choice([0.125, 0.25, 0.5, 1.0, 2.0, 0.1, 0.01])
+        v = rng.choice([0, 1, 1, 2, 2, 3])
     ops, prev, stored = [], None, False  # stored: the criterion holds a (well-formed) last evaluation
     for _ in range(rng.randint(1, 12)):
         if ops and ops[-1] != "reset" and rng.random() < 0.08:
@@ -308,9 +324,14 @@ def gen_spsa_case(rng, structured=True):
     style = rng.choice([0, 0, 1, 2])
     thrq = Fraction(thr)
     runs = []
-    for _ in range(rng.randint(1, 4)):
-        run, n, f = [], rng.choice([2, 3]) if structured else rng.randint(0, 6), None
-        for j in range(rng.randint(2, 9)):
+    first = rng.choice([2, 2, 3, 4])  # one optimiser configuration: every run's first callback carries the same count
+    single = rng.random() < 0.25      # SPSA(maxiter=1): every run is a single callback
+    for _ in range(rng.randint(1, 5) if single else rng.randint(1, 4)):
+        if structured:
+            # occasionally a different (smaller or equal) first count than the previous run's last count
+            start = first if not runs else (min(first, runs[-1][-1][0]) if rng.random() < 0.85 else rng.randint(1, runs[-1][-1][0]))
+        run, n, f = [], start if structured else rng.randint(0, 6), None
+        for j in range(1 if single else rng.choice([1, 2, 3, 4, 5, 6, 7, 8, 9])):
             f = gen_value(rng, f, style)
             run.append([n, f, rng.random() < 0.8])
             if structured:
@@ -319,7 +340,7 @@ def gen_spsa_case(rng, structured=True):
                     break  # the optimiser stops when told to
                 n += rng.choice([2, 2, 3])
             else:
-                n = max(0, n + rng.choice([2, 2, 3, 0, 0, -1, -4]))
+                n = max(0, n + rng.choice([2, 2, 3, 0, 0, 0, -1, -4]))
         runs.append(run)
     return {"type": "spsa", "thr": thr, "v": v, "maxfev": maxfev, "dtype": rng.choice(["py", "py", "np"]), "runs": runs, "structured": structured}
 
@@ -392,10 +413,11 @@ def first_failure_spsa(case, impl=None):
 
 
 def structured_ok(case):
-    """a structured SPSA case is a sequence of optimiser runs the checker can tell apart: within a run the counter grows
-    and nothing follows a 'terminate'; a run either ended by the change criterion or its last counter exceeds the first
-    counter of the next run (corpus witnesses of the run-boundary finding are exempt)"""
-    if case["type"] != "spsa" or not case["structured"] or case.get("boundary_witness"):
+    """a structured SPSA case is a sequence of optimiser runs as one optimiser configuration produces them: within a run
+    the counter strictly grows and nothing follows a 'terminate'; the first counter of a run does not exceed the last
+    counter of the previous run (or that run was ended by the change criterion).  A new run starting with a LARGER
+    counter than the previous run's last one is not recognisable by the checker and outside the property."""
+    if case["type"] != "spsa" or not case["structured"]:
         return True
     thr, v, mf = Fraction(case["thr"]), case["v"], case["maxfev"]
     prev = None
@@ -405,7 +427,7 @@ def structured_ok(case):
         o, _ = spsa_run_spec(thr, v, mf, [tuple(c) for c in run])
         if any(x["answer"] for x in o[:-1]):
             return False
-        if prev is not None and not (prev[1] or run[0][0] < prev[0]):
+        if prev is not None and not (prev[1] or run[0][0] <= prev[0]):
             return False
         prev = (run[-1][0], o[-1]["fired"])
     return True
@@ -472,8 +494,14 @@ def do_case(ctx, case, count=True):
                 ctx.tally(f"{label}:threshold<=0")
             if malformed(case):
                 ctx.tally(f"{label}:evaluation-without-values")
+            if case["kind"] in ("pop", "poprel") and any(median(somes(e)) == 0 for e in evs[:-1] if somes(e)):
+                ctx.tally(f"{label}:zero-median-reference")
         else:
             ctx.tally(f"spsa:{'runs' if case['structured'] else 'arbitrary'}:{len(case['runs'])}")
+            if case["structured"] and any(len(r) == 1 for r in case["runs"]) and len(case["runs"]) > 1:
+                ctx.tally("spsa:single-callback-run")
+            if case["structured"] and any(a[-1][0] == b[0][0] for a, b in zip(case["runs"], case["runs"][1:])):
+                ctx.tally("spsa:equal-counter-boundary")
             if any(o["answer"] is True for o in impl):
                 ctx.tally("spsa:terminates")
             if any(not c[2] for r in case["runs"] for c in r):
@@ -494,7 +522,7 @@ def nontrivial(case):
 def run(ctx):
     ctx.rule = ("per criterion: operation sequences of 1-12 evaluations (dyadic values in [-8,8], many zeros/repeats/sign changes; populations of 1-6 with None entries) "
                 "with reset_state in between, thresholds incl. 0 and negatives, allowed violations 0-3 (and -1), Python float and numpy.float64 inputs; "
-                "SPSA: 1-4 optimiser runs of callbacks (rejected steps, maxfev, restarts) and arbitrary callback sequences; "
+                "SPSA: 1-5 optimiser runs of callbacks (same first count per run, single-callback runs, equal-counter boundaries, rejected steps, maxfev, restarts) and arbitrary callback sequences; "
                 "distinct = distinct case data; non-trivial = at least two evaluations / callbacks (a change is measured)")
     cases = []
     cdir = core.ROOT / "corpus" / "C13"
@@ -507,6 +535,7 @@ def run(ctx):
             cases.append(gen_crit_case(ctx.rng, kind))
     for _ in range(ctx.n(400, 10000)):
         cases.append(gen_spsa_case(ctx.rng, structured=True))
+        assert structured_ok(cases[-1]), cases[-1]
     for _ in range(ctx.n(200, 4000)):
         cases.append(gen_spsa_case(ctx.rng, structured=False))
     if not ctx.quick:
